@@ -31,7 +31,7 @@ class FaultPlan:
         self.errno = 0
         self.keep = 1.0
         self.fired = False
-        self.n = {"open": 0, "write": 0, "close": 0, "read": 0, "line": 0}
+        self.n = {"open": 0, "write": 0, "close": 0, "read": 0, "line": 0, "listdir": 0}
 
     def arm(self, fault):
         self.clear()
@@ -47,7 +47,7 @@ class FaultPlan:
         if self.fired or self.kind is None:
             return False
         want = {"open_error": "open", "write_error": "write", "close_error": "close",
-                "read_error": "read", "crash": "write"}.get(self.kind)
+                "read_error": "read", "crash": "write", "listdir_error": "listdir"}.get(self.kind)
         if want == prim and self.n[prim] == self.at:
             self.fired = True
             return True
@@ -175,6 +175,8 @@ class SimFS:
 
     def listdir(self, path):
         p = path.rstrip("/")
+        if self.plan.tick("listdir"):
+            raise OSError(self.plan.errno, _real_os.strerror(self.plan.errno), path)
         if p not in self.dirs:
             raise FileNotFoundError(_errno.ENOENT, "No such file or directory", path)
         names = sorted(f[len(p) + 1:] for f in self.files
